@@ -52,9 +52,13 @@ pub fn parse_local_segments(local: &str) -> Vec<LocalSegment> {
     normalized
         .split('.')
         .map(|part| {
-            if !part.is_empty() && part.chars().all(|c| c.is_ascii_digit()) {
-                LocalSegment::new_uint(part.parse().unwrap_or(0))
+            if !part.is_empty()
+                && part.chars().all(|c| c.is_ascii_digit())
+                && let Ok(number) = part.parse()
+            {
+                LocalSegment::new_uint(number)
             } else {
+                // also digits that do not fit u32: kept verbatim (minus leading zeros)
                 LocalSegment::try_new_str(part.to_string()).unwrap()
             }
         })
@@ -69,26 +73,38 @@ impl FromStr for PEP440 {
             .captures(s)
             .ok_or_else(|| ZervError::InvalidVersion(format!("Invalid PEP440 version: {s}")))?;
 
+        // A number that does not fit u32 cannot be represented: reject it instead of
+        // silently reading it as 0
+        let parse_number = |text: &str| -> Result<u32, ZervError> {
+            text.parse().map_err(|_| {
+                ZervError::InvalidVersion(format!("PEP440 number out of range: {text} in {s}"))
+            })
+        };
+
         let release = captures
             .name("release")
             .map(|m| {
                 m.as_str()
                     .split('.')
-                    .map(|x| x.parse().unwrap_or(0))
-                    .collect()
+                    .map(parse_number)
+                    .collect::<Result<Vec<u32>, ZervError>>()
             })
+            .transpose()?
             .unwrap_or_else(|| vec![0]);
 
         let mut version = PEP440::new(release);
 
         if let Some(epoch_match) = captures.name("epoch") {
-            let epoch = epoch_match.as_str().parse().unwrap_or(0);
+            let epoch = parse_number(epoch_match.as_str())?;
             version = version.with_epoch(epoch);
         }
 
         if let Some(pre_l) = captures.name("pre_l") {
             let label = PreReleaseLabel::from_str_or_alpha(pre_l.as_str());
-            let number = captures.name("pre_n").and_then(|m| m.as_str().parse().ok());
+            let number = captures
+                .name("pre_n")
+                .map(|m| parse_number(m.as_str()))
+                .transpose()?;
             version = version.with_pre_release(label, number);
         }
 
@@ -96,12 +112,16 @@ impl FromStr for PEP440 {
             let post_number = captures
                 .name("post_n1")
                 .or_else(|| captures.name("post_n2"))
-                .and_then(|m| m.as_str().parse().ok());
+                .map(|m| parse_number(m.as_str()))
+                .transpose()?;
             version = version.with_post(post_number);
         }
 
         if captures.name("dev").is_some() {
-            let dev_number = captures.name("dev_n").and_then(|m| m.as_str().parse().ok());
+            let dev_number = captures
+                .name("dev_n")
+                .map(|m| parse_number(m.as_str()))
+                .transpose()?;
             version = version.with_dev(dev_number);
         }
 
